@@ -429,6 +429,46 @@ def wrap (m : Int) (x : Int) : Int := (x + m) % (2 * m) - m
 `[-m, m)`, as numpy does for an integer array of that dtype -/
 def normProdW (m : Int) (k : Int) : Int := wrap m (wrap m k * wrap m (wrap m k - 1))
 
+/-! ### Round 4: `Network.global_efficiency`, closeness with a stated convention for unreachable
+nodes, and numpy's integer accumulation -/
+
+/-- all nodes of the network but `i`, in increasing order -/
+def others (n i : Nat) : List Nat := (List.range n).filter fun j => j != i
+
+/-- `Network.global_efficiency(link_attribute)` (network.py:3904-3940): the diagonal is set to
+`inf`, `1/float(N·(N−1)) · (1/path_lengths).sum()`.  `none` = `ZeroDivisionError` (`N ≤ 1`); a zero
+distance between two different nodes makes the sum `inf` -/
+def netGlobalEfficiency (n : Nat) (D : Dist) : Option XR :=
+  if n * (n - 1) = 0 then none
+  else if (List.range n).any (fun i => (List.range n).any fun j => i != j && D i j == some 0)
+  then some .inf
+  else some (.val ((1 / ((n * (n - 1) : Nat) : Rat)) *
+    ((List.range n).map fun i =>
+      ((List.range n).map fun j => if i = j then 0 else invD (D i j)).sum).sum))
+
+/-- closeness of node `i` in the whole network when an unreachable node counts as distance `c`:
+`(N − 1) / Σ_j d'_ij`, `0` where the sum vanishes.  `c = N − 1`: the convention of
+`internal_closeness` on the whole node set; `c = N`: the weighted branch of `Network.closeness`
+(`Pyunicorn.Net.closenessW`). -/
+def closenessConv (c : Rat) (n : Nat) (D : Dist) (i : Nat) : Rat :=
+  let s := ((List.range n).map fun j => (D i j).getD c).sum
+  if s = 0 then 0 else ((n : Rat) - 1) / s
+
+/-- `np.sum` / `np.add.reduce` of an integer array with an accumulator of the signed type of range
+`[-m, m)`: every partial sum is wrapped (`wrap`) -/
+def sumW (m : Int) (l : List Int) : Int := l.foldl (fun acc x => wrap m (acc + x)) 0
+
+/-- `cross_outdegree` with the row sums accumulated in a signed integer type of range `[-m, m)`
+(numpy's default for `int8` data: the platform integer, `m = 2^63`) -/
+def crossOutDegreeW (m : Int) (A : Adj) (L1 L2 : List Nat) : List Int :=
+  (blockN A L1 L2).map fun r => sumW m (r.map fun (x : Nat) => (x : Int))
+
+/-- `path_lengths()` of the unweighted network (igraph's `distances()`), specified by the frontier
+BFS of C03's model `Pyunicorn.Net.dist`; node numbers `≥ n` do not exist (`none`; the driver and
+numpy raise `IndexError` before any such entry is read) -/
+def distQ (n : Nat) (A : Adj) : Dist := fun a b =>
+  if a < n ∧ b < n then (Pyunicorn.Net.dist n A a b).map fun (k : Nat) => (k : Rat) else none
+
 /-! ### specification vocabulary -/
 
 /-- sum over the unordered pairs of positions `k < j` of a list of `f L[j] L[k]`
